@@ -239,6 +239,9 @@ package jrpc2
 //@ pure batchOK(b Slice) Bool = len(b) >= 1 && forall(i int, 0 <= i && i < len(b) ==> b[i] != nil)
 
 //@ sentinel[*errors.errorString] errServerStopped errClientStopped ErrConnClosed ErrPushUnsupported
+// Initial values of the sentinel error objects (never stored to: census
+// globals-immutable, immutable fields of *Error are not written after creation).
+//@ globalinv errInvalidRequest.Code == ParseError && errEmptyBatch.Code == InvalidRequest && errNoSuchMethod.Code == MethodNotFound && errDuplicateID.Code == InvalidRequest && errEmptyMethod.Code == InvalidRequest
 //@ globalinv errEmptyMethod != nil && errNoSuchMethod != nil && errDuplicateID != nil && errInvalidRequest != nil && errEmptyBatch != nil && errInvalidParams != nil && errTaskNotExecuted != nil
 //@ globalinv rpcErrorsCount != nil && rpcRequestsCount != nil && bytesReadCount != nil && bytesWrittenCount != nil && rpcCallsPushed != nil && rpcNotificationsPushed != nil && serversActiveGauge != nil && serverMetrics != nil
 
@@ -265,9 +268,6 @@ package jrpc2
 //@   ensures chSends(ch) == old(chSends(ch)) || chSends(ch) == old(chSends(ch)) + 1
 //@   ensures result1 == nil ==> chSends(ch) == old(chSends(ch)) + 1
 
-//@ func (*jmessages).parseJSON
-//@   modifies *j
-//@   ensures forall(i int, 0 <= i && i < len(*j) ==> (*j)[i] != nil)
 
 // cancelLocked: fires and releases exactly the named reservation.
 //@ func (*Server).cancelLocked
@@ -282,9 +282,13 @@ package jrpc2
 
 // pushErrorLocked answers directly with one id-null error object.
 //@ func (*Server).pushErrorLocked
-//@   requires wfServer(s) && held(s.mu) && s.ch != nil && err != nil
+//@   requires wfServer(s) && held(s.mu) && s.ch != nil && err != nil && (typeis(err, "*jrpc2.Error") ==> unboxas(err, "*jrpc2.Error") != nil)
 //@   modifies chSends(s.ch)
 //@   at call.encode#1 assert[C10:send-under-lock] held(s.mu)
+//@   at call.encode#1 assert[C02:one-object] len(arg1) == 1 && arg1[0] != nil
+//@   at call.encode#1 assert[C02:id-null] isNullText(str(arg1[0].ID))
+//@   at call.encode#1 assert[C02:error-object] arg1[0].E != nil && arg1[0].M == "" && len(arg1[0].R) == 0
+//@   at call.encode#1 assert[C02:same-error] typeis(err, "*jrpc2.Error") && unboxas(err, "*jrpc2.Error") != nil ==> arg1[0].E == unboxas(err, "*jrpc2.Error")
 //@   ensures[C02:one-reply] chSends(s.ch) == old(chSends(s.ch)) || chSends(s.ch) == old(chSends(s.ch)) + 1
 
 // stopLocked: idempotent; closes the channel exactly once, releases every
@@ -322,6 +326,9 @@ package jrpc2
 // stops the server and is the only way out of the loop.
 //@ func (*Server).read
 //@   requires wfServer(s) && ch != nil && !held(s.mu)
+//@   modifies jsonDecodes, jsonSource
+//@   at call.pushErrorLocked#1 assert[C02:undecodable-is-parse-error] arg1 == boxof(errInvalidRequest, "*jrpc2.Error") && !jsonValid(str(bits))
+//@   at call.pushErrorLocked#2 assert[C02:empty-batch-is-invalid-request] arg1 == boxof(errEmptyBatch, "*jrpc2.Error")
 //@   modifies monitor(Server, s), fired, chCloses, chSends, chRecvs(ch), held(s.mu)
 //@   ensures !held(s.mu)
 //@   loop 1 invariant !held(s.mu)
@@ -382,7 +389,7 @@ package jrpc2
 //@   root
 //@   transfer wgDebt(fieldaddr(s, wg)), 1
 //@   captures wfServer(s) && c != nil
-//@   modifies monitor(Server, s), fired, chCloses, chSends, chRecvs, held, wgDebt(fieldaddr(s, wg))
+//@   modifies monitor(Server, s), fired, chCloses, chSends, chRecvs, held, wgDebt(fieldaddr(s, wg)), jsonDecodes, jsonSource
 //@   requires !held(s.mu)
 //@   ensures[C08:done-paid] wgDebt(fieldaddr(s, wg)) == 0
 
@@ -858,17 +865,43 @@ package jrpc2
 //@   requires forall(i int, 0 <= i && i < len(j) ==> j[i] != nil)
 //@   fresh result0
 //@   ensures result1 == nil ==> len(result0) > 0
+//@   ensures[C13:array-unless-single] result1 == nil && !(len(j) == 1 && !j[0].batch) ==> len(result0) >= 2 && result0[0] == '[' && result0[len(result0) - 1] == ']'
+//@   ensures[C13:single-object-alone] result1 == nil && len(j) == 1 && !j[0].batch ==> result0[0] == '{' && result0[len(result0) - 1] == '}'
+//@   ensures[C13:single-line] result1 == nil && forall(i int, 0 <= i && i < len(j) ==> noLF(j[i].ID) && noLF(j[i].P) && noLF(j[i].R)) ==> noLF(result0)
+//@   loop 1 invariant bufLen(sb) >= 1 && bufData(sb)[0] == '['
+//@   loop 1 invariant (forall(i int, 0 <= i && i < len(j) ==> noLF(j[i].ID) && noLF(j[i].P) && noLF(j[i].R))) ==> forall(k int, 0 <= k && k < bufLen(sb) ==> bufData(sb)[k] != 10 && bufData(sb)[k] != 13)
+// noLF(x): no raw line break in x. A message is written as one object:
+// the version first, then the id bytes verbatim (if any), then exactly one of
+// the method/params, result or error sections, then the closing brace; the
+// text is a single line whenever the raw parts it embeds are.
+//@ pure noLF(x Slice) Bool = forall(i int, 0 <= i && i < len(x) ==> x[i] != 10 && x[i] != 13)
 //@ func (*jmessage).toJSON
 //@   requires j != nil
 //@   fresh result0
 //@   ensures result1 == nil ==> len(result0) > 0
+//@   ensures[C13:object-with-version] result1 == nil ==> len(result0) >= 17 && result0[0] == 123 && result0[1] == 34 && result0[2] == 106 && result0[3] == 115 && result0[4] == 111 && result0[5] == 110 && result0[6] == 114 && result0[7] == 112 && result0[8] == 99 && result0[9] == 34 && result0[10] == 58 && result0[11] == 34 && result0[12] == 50 && result0[13] == 46 && result0[14] == 48 && result0[15] == 34 && result0[len(result0) - 1] == '}'
+//@   ensures[C13:id-verbatim] result1 == nil && len(j.ID) != 0 ==> len(result0) >= 23 + len(j.ID) && result0[16] == ',' && result0[17] == '"' && result0[18] == 'i' && result0[19] == 'd' && result0[20] == '"' && result0[21] == ':' && forall(k int, 0 <= k && k < len(j.ID) ==> result0[22 + k] == j.ID[k])
+//@   ensures[C13:no-id-no-member] result1 == nil && len(j.ID) == 0 ==> result0[16] == ',' || result0[16] == '}'
+//@   ensures[C13:single-line] result1 == nil && noLF(j.ID) && noLF(j.P) && noLF(j.R) ==> noLF(result0)
+//@   at call.WriteString#2 assert[C13:line-so-far] noLF(j.ID) && noLF(j.P) && noLF(j.R) ==> forall(i int, 0 <= i && i < bufLen(sb) ==> bufData(sb)[i] != 10 && bufData(sb)[i] != 13)
+//@   at call.WriteString#3 assert[C13:line-so-far] noLF(j.ID) && noLF(j.P) && noLF(j.R) ==> forall(i int, 0 <= i && i < bufLen(sb) ==> bufData(sb)[i] != 10 && bufData(sb)[i] != 13)
+//@   at call.WriteString#4 assert[C13:line-so-far] noLF(j.ID) && noLF(j.P) && noLF(j.R) ==> forall(i int, 0 <= i && i < bufLen(sb) ==> bufData(sb)[i] != 10 && bufData(sb)[i] != 13)
+//@   at call.WriteString#5 assert[C13:line-so-far] noLF(j.ID) && noLF(j.P) && noLF(j.R) ==> forall(i int, 0 <= i && i < bufLen(sb) ==> bufData(sb)[i] != 10 && bufData(sb)[i] != 13)
+//@   at call.WriteString#6 assert[C13:line-so-far] noLF(j.ID) && noLF(j.P) && noLF(j.R) ==> forall(i int, 0 <= i && i < bufLen(sb) ==> bufData(sb)[i] != 10 && bufData(sb)[i] != 13)
+//@   at call.Write#1 assert[C13:line-so-far] noLF(j.ID) && noLF(j.P) && noLF(j.R) ==> forall(i int, 0 <= i && i < bufLen(sb) ==> bufData(sb)[i] != 10 && bufData(sb)[i] != 13)
+//@   at call.Write#2 assert[C13:line-so-far] noLF(j.ID) && noLF(j.P) && noLF(j.R) ==> forall(i int, 0 <= i && i < bufLen(sb) ==> bufData(sb)[i] != 10 && bufData(sb)[i] != 13)
+//@   at call.Write#3 assert[C13:line-so-far] noLF(j.ID) && noLF(j.P) && noLF(j.R) ==> forall(i int, 0 <= i && i < bufLen(sb) ==> bufData(sb)[i] != 10 && bufData(sb)[i] != 13)
+//@   at call.Write#4 assert[C13:line-so-far] noLF(j.ID) && noLF(j.P) && noLF(j.R) ==> forall(i int, 0 <= i && i < bufLen(sb) ==> bufData(sb)[i] != 10 && bufData(sb)[i] != 13)
+//@   at call.Write#5 assert[C13:line-so-far] noLF(j.ID) && noLF(j.P) && noLF(j.R) ==> forall(i int, 0 <= i && i < bufLen(sb) ==> bufData(sb)[i] != 10 && bufData(sb)[i] != 13)
+//@   at call.WriteByte#1 assert[C13:line-so-far] noLF(j.ID) && noLF(j.P) && noLF(j.R) ==> forall(i int, 0 <= i && i < bufLen(sb) ==> bufData(sb)[i] != 10 && bufData(sb)[i] != 13)
+//@   at call.Bytes#1 assert[C13:line-so-far] noLF(j.ID) && noLF(j.P) && noLF(j.R) ==> forall(i int, 0 <= i && i < bufLen(sb) ==> bufData(sb)[i] != 10 && bufData(sb)[i] != 13)
 
 // accept: one Recv; a failure (or an undecodable record) stops the client and
 // the OnStop thunk runs outside the lock; otherwise the members are delivered
 // by a goroutine that owes one Done.
 //@ func (*Client).accept
 //@   requires wfClient(c) && ch != nil && !held(fieldaddr(c, mu))
-//@   modifies monitor(Client, c), held(fieldaddr(c, mu)), fired, chCloses, chRecvs(ch), stopHooks
+//@   modifies monitor(Client, c), held(fieldaddr(c, mu)), fired, chCloses, chRecvs(ch), stopHooks, jsonDecodes, jsonSource
 //@   ensures[C05:unlocked] !held(fieldaddr(c, mu))
 //@   ensures[C05:stop-hook-at-most-once] stopHooks == old(stopHooks) || stopHooks == old(stopHooks) + 1
 //@   ensures[C05:failure-stops] result != nil ==> called("call.stopLocked#1")
@@ -944,7 +977,7 @@ package jrpc2
 //@   transfer wgDebt(c.done), 1
 //@   captures wfClient(c) && ch != nil
 //@   requires !held(fieldaddr(c, mu))
-//@   modifies monitor(Client, c), held(fieldaddr(c, mu)), fired, chCloses, chRecvs(ch), stopHooks, wgDebt(c.done)
+//@   modifies monitor(Client, c), held(fieldaddr(c, mu)), fired, chCloses, chRecvs(ch), stopHooks, wgDebt(c.done), jsonDecodes, jsonSource
 //@   ensures[C05:done-paid] wgDebt(c.done) == 0 && !held(fieldaddr(c, mu))
 //@   loop 1 invariant !held(fieldaddr(c, mu)) && wgDebt(c.done) == 1
 
@@ -958,9 +991,14 @@ package jrpc2
 // ParseRequests: an error means no requests; otherwise one non-nil entry per
 // message, in order.
 //@ func ParseRequests
+//@   modifies jsonDecodes, jsonSource
 //@   ensures[C18:error-no-requests] result1 != nil ==> result0 == nil
 //@   ensures[C18:members] forall(i int, 0 <= i && i < len(result0) ==> result0[i] != nil)
-//@   loop 1 invariant len(out) == len(reqs) && forall(k int, 0 <= k && k <= rangeindex ==> out[k] != nil)
+//@   ensures[C13:error-iff-invalid-json] (result1 != nil) == !jsonValid(str(msg))
+//@   ensures[C13:one-per-member] result1 == nil ==> len(result0) == (jsonFirst(str(msg)) == '[' ? jsonArrayLen(str(msg)) : 1)
+//@   ensures[C13:invalid-members-flagged] result1 == nil ==> forall(i int, 0 <= i && i < len(result0) && memberInvalid(jsonFirst(str(msg)) == '[' ? jsonElem(str(msg), i) : jsonValueText(str(msg))) ==> result0[i].Error != nil && (result0[i].Error.Code == ParseError || result0[i].Error.Code == InvalidRequest))
+//@   loop 1 invariant len(out) == len(reqs) && forall(k int, 0 <= k && k <= rangeindex ==> out[k] != nil && out[k].Error == reqs[k].err)
+//@   loop 1 invariant jsonValid(str(msg)) && len(reqs) == (jsonFirst(str(msg)) == '[' ? jsonArrayLen(str(msg)) : 1) && forall(i int, 0 <= i && i < len(reqs) ==> reqs[i] != nil && allocated(reqs[i]) && parsedAs(reqs[i], jsonFirst(str(msg)) == '[' ? jsonElem(str(msg), i) : jsonValueText(str(msg))))
 
 // ---------------------------------------------------------------------------
 // Member parsing (C02, C13)
@@ -1011,6 +1049,7 @@ package jrpc2
 //@   ensures[C02:id-kept] jsonIsObject(str(data)) && jsonHasKey(str(data), "id") && idText(jsonMember(str(data), "id")) ==> str(j.ID) == jsonMember(str(data), "id")
 //@   ensures[C02:id-dropped] jsonIsObject(str(data)) && !(jsonHasKey(str(data), "id") && idText(jsonMember(str(data), "id"))) ==> len(j.ID) == 0
 //@   ensures[C02:mixed-rejected] j.M != "" && (j.E != nil || j.R != nil) ==> j.err != nil
+//@   ensures[C02:summary] parsedAs(j, str(data))
 //@   ensures[C13:valid-accepted] jsonIsObject(str(data)) && !anyBad(str(data)) && versionOK(str(data)) && forall(k string, jsonHasKey(str(data), k) ==> knownKey(k)) && !(j.M != "" && (j.E != nil || j.R != nil)) ==> j.err == nil
 //@   ensures[C13:fields] jsonIsObject(str(data)) ==> (jsonHasKey(str(data), "method") && jsonIsString(jsonMember(str(data), "method")) ==> j.M == jsonStringVal(jsonMember(str(data), "method"))) && (!jsonHasKey(str(data), "method") ==> j.M == "") && (jsonHasKey(str(data), "params") && !isNullText(jsonMember(str(data), "params")) ==> str(j.P) == jsonMember(str(data), "params")) && (jsonHasKey(str(data), "result") ==> str(j.R) == jsonMember(str(data), "result") && j.R != nil) && (!jsonHasKey(str(data), "result") ==> j.R == nil)
 //@   loop 1 invariant (jsonIsNull(str(data)) && obj == nil) || (jsonIsObject(str(data)) && obj != nil)
@@ -1025,3 +1064,26 @@ package jrpc2
 //@   loop 1 invariant (visited(loop1, "id") && idText(jsonMember(str(data), "id")) ==> str(j.ID) == jsonMember(str(data), "id")) && (!(visited(loop1, "id") && idText(jsonMember(str(data), "id"))) ==> len(j.ID) == 0)
 //@   loop 1 invariant forall(k string, visited(loop1, k) && !knownKey(k) ==> len(extra) > 0)
 //@   loop 1 invariant (!visited(loop1, "jsonrpc") ==> j.V == "") && (visited(loop1, "jsonrpc") && jsonIsString(jsonMember(str(data), "jsonrpc")) ==> j.V == jsonStringVal(jsonMember(str(data), "jsonrpc"))) && (visited(loop1, "jsonrpc") && jsonIsNull(jsonMember(str(data), "jsonrpc")) ==> j.V == "")
+
+// memberInvalid(t): the text t is not a structurally valid JSON-RPC message
+// (shape of each key, version, unknown keys); mixed request/reply fields are
+// judged on the decoded fields. parsedAs(m, t): m is what parseJSON makes of t.
+//@ pure memberInvalid(t Str) Bool = !jsonIsObject(t) || anyBad(t) || !versionOK(t) || exists(k string, jsonHasKey(t, k) && !knownKey(k))
+//@ pure parsedAs(m *jmessage, t Str) Bool = m != nil && (m.err != nil ==> m.err.Code == ParseError || m.err.Code == InvalidRequest) && (memberInvalid(t) ==> m.err != nil) && (m.M != "" && (m.E != nil || m.R != nil) ==> m.err != nil) && (!memberInvalid(t) && !(m.M != "" && (m.E != nil || m.R != nil)) ==> m.err == nil) && (jsonIsObject(t) && jsonHasKey(t, "id") && idText(jsonMember(t, "id")) ==> str(m.ID) == jsonMember(t, "id")) && (jsonIsObject(t) && !(jsonHasKey(t, "id") && idText(jsonMember(t, "id"))) ==> len(m.ID) == 0)
+
+// jmessages.parseJSON: fails (with the invalid-request sentinel) exactly when
+// the text is not valid JSON; otherwise one message per array element in order
+// (a single one for a non-array text), none nil, each flagged as batch member
+// exactly for an array, each being what the member parser makes of its text.
+//@ func (*jmessages).parseJSON
+//@   requires j != nil
+//@   modifies *j, mem(*j), jsonDecodes, jsonSource
+//@   ensures[C02:invalid-json-rejected] !jsonValid(str(data)) ==> result != nil
+//@   ensures[C13:error-iff-invalid] result != nil ==> !jsonValid(str(data)) && result == boxof(errInvalidRequest, "*jrpc2.Error")
+//@   ensures[C13:one-per-member] result == nil ==> len(*j) == (jsonFirst(str(data)) == '[' ? jsonArrayLen(str(data)) : 1)
+//@   ensures[C02:members] result == nil ==> forall(i int, 0 <= i && i < len(*j) ==> (*j)[i] != nil && allocated((*j)[i]) && (*j)[i].batch == (jsonFirst(str(data)) == '[') && parsedAs((*j)[i], jsonFirst(str(data)) == '[' ? jsonElem(str(data), i) : jsonValueText(str(data))))
+//@   loop 1 invariant len(*j) == rangeindex + 1 && batch == (jsonFirst(str(data)) == '[') && jsonValid(str(data))
+//@   loop 1 invariant len(msgs) == (batch ? jsonArrayLen(str(data)) : 1) && (len(msgs) > 0 ==> isnew(ptr(msgs)))
+//@   loop 1 invariant forall(i int, 0 <= i && i < len(msgs) ==> str(msgs[i]) == (batch ? jsonElem(str(data), i) : jsonValueText(str(data))))
+//@   loop 1 invariant forall(i int, 0 <= i && i < len(msgs) ==> isnew(ptr(msgs[i])))
+//@   loop 1 invariant forall(i int, 0 <= i && i <= rangeindex ==> (*j)[i] != nil && isnew((*j)[i]) && allocated((*j)[i]) && (*j)[i].batch == batch && parsedAs((*j)[i], batch ? jsonElem(str(data), i) : jsonValueText(str(data))))
